@@ -50,6 +50,19 @@ Proof.
   - subst; auto.
 Qed.
 
+(** address families: the 4-byte and the 16-byte (IPv4-mapped) form of one IPv4 address, an IPv6
+    address and a non-UDP address are four different addresses for a token; two UDP addresses
+    that differ only in the port are the same. *)
+Definition ex_v4 := UDPAddr [10; 0; 0; 1] 1000.
+Definition ex_v4mapped := UDPAddr [0; 0; 0; 0; 0; 0; 0; 0; 0; 0; 255; 255; 10; 0; 0; 1] 1000.
+Definition ex_v6 := UDPAddr [32; 1; 13; 184; 0; 0; 0; 0; 0; 0; 0; 0; 0; 0; 0; 1] 1000.
+Definition ex_str := StrAddr [49; 48; 46; 48; 46; 48; 46; 49].
+Lemma address_families :
+  ~ same_addr ex_v4 ex_v4mapped /\ ~ same_addr ex_v4 ex_v6 /\ ~ same_addr ex_v4mapped ex_v6 /\
+  ~ same_addr ex_v4 ex_str /\ ~ same_addr ex_str ex_v6 /\ ~ same_addr ex_str (UDPAddr [49; 48; 46; 48; 46; 48; 46; 49] 0) /\
+  same_addr ex_v4 (UDPAddr [10; 0; 0; 1] 2000).
+Proof. cbn. repeat split; try (intros H; discriminate H); auto. Qed.
+
 (** ** validateToken — no hypothesis about the oracles is needed *)
 Definition lifetime (t : tok) (maxTokenAge maxRetryAge : Z) : Z :=
   if t_isRetry t then maxRetryAge else maxTokenAge.
@@ -308,6 +321,55 @@ Section TokenTheory.
     assert (Hp : (0 <? zlen enc) = true).
     { apply Z.ltb_lt. apply Z.eqb_neq in Hz. pose proof (zlen_nonneg enc). lia. }
     rewrite Hp, Hd, Hv. cbn [negb andb]. destruct (t_isRetry t); reflexivity.
+  Qed.
+
+  (** a token that decodes and validates: the connection is created as verified, whatever
+      VerifySourceAddress says, with the token's connection IDs (Retry) or RTT (NEW_TOKEN) *)
+  Theorem valid_token_handling k enc dcid a now maxTokenAge maxRetryAge vs t :
+    decode k enc = DTok t -> validateToken (Some t) a now maxTokenAge maxRetryAge = true ->
+    handle k enc dcid a now maxTokenAge maxRetryAge vs =
+      Out 3 true (if t_isRetry t then t_odcid t else dcid)
+                 (if t_isRetry t then Some (t_rscid t) else None)
+                 (if t_isRetry t then 0 else t_rtt t).
+  Proof.
+    intros Hd Hv. unfold handle, handleInitial. fold (decode k enc).
+    assert (Hz : (zlen enc =? 0) = false).
+    { destruct (Z.eqb_spec (zlen enc) 0) as [E|]; [|reflexivity].
+      apply zlen_0 in E. subst. discriminate. }
+    rewrite Hz. cbn [andb].
+    assert (Hp : (0 <? zlen enc) = true).
+    { apply Z.ltb_lt. apply Z.eqb_neq in Hz. pose proof (zlen_nonneg enc). lia. }
+    rewrite Hp, Hd, Hv. cbn [negb andb]. reflexivity.
+  Qed.
+
+  (** the complete decision table of handleInitialImpl's token branch *)
+  Definition absent_outcome (enc dcid : list Z) (vs : Z) : outcome :=
+    if (zlen enc =? 0) && (zlen dcid <? tok_MinConnectionIDLenInitial) then Out 0 false [] None 0
+    else if vs =? 1 then Out 2 false [] None 0 else Out 3 false dcid None 0.
+
+  Theorem decision_table k enc dcid a now maxTokenAge maxRetryAge vs :
+    handle k enc dcid a now maxTokenAge maxRetryAge vs =
+    match decode k enc with
+    | DTok t =>
+      if validateToken (Some t) a now maxTokenAge maxRetryAge
+      then Out 3 true (if t_isRetry t then t_odcid t else dcid)
+                      (if t_isRetry t then Some (t_rscid t) else None)
+                      (if t_isRetry t then 0 else t_rtt t)
+      else if t_isRetry t then Out 1 false [] None 0 else absent_outcome enc dcid vs
+    | _ => absent_outcome enc dcid vs
+    end.
+  Proof.
+    destruct (decode k enc) as [| |t] eqn:Ed.
+    - apply undecodable_is_absent. intros t. rewrite Ed. discriminate.
+    - apply undecodable_is_absent. intros t. rewrite Ed. discriminate.
+    - destruct (validateToken (Some t) a now maxTokenAge maxRetryAge) eqn:Ev.
+      + apply valid_token_handling; assumption.
+      + rewrite (invalid_token_handling k enc dcid a now maxTokenAge maxRetryAge vs t Ed Ev).
+        destruct (t_isRetry t); [reflexivity|]. unfold absent_outcome.
+        assert (Hz : (zlen enc =? 0) = false).
+        { destruct (Z.eqb_spec (zlen enc) 0) as [E|]; [|reflexivity].
+          apply zlen_0 in E. subst. discriminate. }
+        rewrite Hz. reflexivity.
   Qed.
 
   (** *** Together: a token proves only its address *)
